@@ -269,4 +269,7 @@ def run(ctx: Ctx, tier: str) -> Result:
         res.ok("C17.NOPROC", {"has_metric_processor": txt})
     else:
         res.fail(Finding("C17.NOPROC", hp.qname, txt, hp.loc(), "has_metric_processor is not `some plugin is a MetricProcessor`"))
+    from .common import borrow
+    borrow(ctx, res, tier, "c13", ("C13.ARGS",), "C17.DEFS", "the metric definitions a caller registered stay as given (name, namespace, labels are not written to: the same definition on another tracepoint means the same)")
+    borrow(ctx, res, tier, "c10", ("C10.CONTAIN",), "C17.FAILED", "a failing expression yields the exception itself, which is no number: the value falls back to 1 (an error text that reads as a number would be reported as the value)")
     return res
